@@ -585,8 +585,11 @@ func ruleC03d(c *Ctx) []*report.Result {
 					continue
 				}
 				f := call.Common().StaticCallee()
-				if f == nil || f.String() != "bytes.HasSuffix" {
+				if f == nil || (f.String() != "bytes.HasSuffix" && !isSuffixPredicate(f)) {
 					continue
+				}
+				if isSuffixPredicate(fn) {
+					continue // the predicate's own body
 				}
 				n++
 				pos := c.P.Pos(call.Pos())
@@ -946,4 +949,64 @@ func (c *Ctx) writtenConstant(call *ssa.Call, mf *markerFacts) (string, bool) {
 		}
 	}
 	return "", false
+}
+
+// isSuffixPredicate: g(a, b []byte) bool is "a ends with b": it returns
+// bytes.HasSuffix(a, b), or bytes.Equal(a[len(a)-len(b):], b) under a test
+// len(a) >= len(b), and does nothing else.
+func isSuffixPredicate(g *ssa.Function) bool {
+	if g == nil || g.Blocks == nil || len(g.Params) != 2 || g.Signature.Results().Len() != 1 {
+		return false
+	}
+	a, b := ssa.Value(g.Params[0]), ssa.Value(g.Params[1])
+	lenOf := func(v ssa.Value, of ssa.Value) bool {
+		c, ok := v.(*ssa.Call)
+		if !ok {
+			return false
+		}
+		bi, ok := c.Common().Value.(*ssa.Builtin)
+		return ok && bi.Name() == "len" && len(c.Common().Args) == 1 && c.Common().Args[0] == of
+	}
+	hasSuffix, equalTail, guard := false, false, false
+	for _, blk := range g.Blocks {
+		for _, ins := range blk.Instrs {
+			switch x := ins.(type) {
+			case *ssa.Store, *ssa.MapUpdate, *ssa.Go, *ssa.Defer, *ssa.Panic:
+				return false
+			case *ssa.BinOp:
+				if (x.Op == token.GEQ && lenOf(x.X, a) && lenOf(x.Y, b)) || (x.Op == token.LEQ && lenOf(x.X, b) && lenOf(x.Y, a)) || (x.Op == token.LSS && lenOf(x.X, a) && lenOf(x.Y, b)) || (x.Op == token.GTR && lenOf(x.X, b) && lenOf(x.Y, a)) {
+					guard = true
+				}
+			case *ssa.Call:
+				if _, isB := x.Common().Value.(*ssa.Builtin); isB {
+					continue
+				}
+				f := x.Common().StaticCallee()
+				if f == nil {
+					return false
+				}
+				switch f.String() {
+				case "bytes.HasSuffix":
+					if x.Common().Args[0] == a && x.Common().Args[1] == b {
+						hasSuffix = true
+					} else {
+						return false
+					}
+				case "bytes.Equal":
+					sl, ok := x.Common().Args[0].(*ssa.Slice)
+					if !ok || sl.X != a || sl.High != nil || x.Common().Args[1] != b {
+						return false
+					}
+					lo, ok := sl.Low.(*ssa.BinOp)
+					if !ok || lo.Op != token.SUB || !lenOf(lo.X, a) || !lenOf(lo.Y, b) {
+						return false
+					}
+					equalTail = true
+				default:
+					return false
+				}
+			}
+		}
+	}
+	return hasSuffix || (equalTail && guard)
 }
